@@ -64,3 +64,14 @@ func init() {
 		Mutant{Property: "C09", Name: "emit-loop-key-differs-from-registration-key", File: nums, Old: "\t\tm := fmt.Sprintf(\"[%s %s]\", p.Amount.String(), p.Asset)\n", New: "\t\tm := fmt.Sprintf(\"[%s  %s]\", p.Amount.String(), p.Asset)\n", Expect: "R09e:TxToScriptData:send"},
 	)
 }
+
+func init() {
+	const bulk = "internal/api/v2/bulk.go"
+	for _, p := range []struct{ prop, rule string }{{"C09", "R09i:"}, {"C18", "R18f:"}} {
+		addMutants(
+			Mutant{Property: p.prop, Name: "bulk-elements-decoded-into-one-request", File: bulk,
+				Old: "\tfor i, element := range bulk {\n", New: "\ttxRequest := &ledger.TransactionRequest{}\n\tfor i, element := range bulk {\n",
+				Edits: []Edit{{File: bulk, Old: "\t\t\treq := &ledger.TransactionRequest{}\n", New: "\t\t\treq := txRequest\n"}}, Expect: p.rule},
+		)
+	}
+}
